@@ -147,7 +147,7 @@ func (p *Program) expandDefaults() {
 			continue
 		}
 		fn := p.Funcs[key]
-		if fn == nil {
+		if fn == nil || c.IsTransparent() {
 			continue
 		}
 		for _, par := range fn.Params {
